@@ -8,9 +8,9 @@
    variables-first repair of unify), and gomini never hands a registered pointer to reflecttools before CastVar has been
    asked (walk / hasCycle / unify / rewrite all test CastVar first), so reflecttools never looks inside one.
 
-   Go recursion that is not structural carries explicit fuel; out of fuel is a distinguished outcome (None / GOOF). *)
+   Go recursion that is not structural carries explicit fuel; out of fuel is a distinguished outcome (None / GROOF). *)
 From Coq Require Import List NArith ZArith Bool.
-From GMK Require Import Reflect.
+From GMK Require Import Term Reflect.
 Import ListNotations.
 
 Definition var_kind : N := 99.
@@ -90,39 +90,39 @@ Definition is_leaf (x : gval) : bool :=
   | _ => true                                              (* Ptr to non-struct, Map, other kinds *)
   end.
 
-Inductive gres := GOOF | GFail | GOk (s : gsub).
+Inductive gres := GROOF | GRFail | GROk (s : gsub).
 
-Definition gres_is_fail (r : gres) : bool := match r with GFail => true | _ => false end.
+Definition gres_is_fail (r : gres) : bool := match r with GRFail => true | _ => false end.
 
 (* `if hasCycle(xvar, y, s) { return nil }; return s.Set(xvar, y)` *)
 Definition gbind (f : nat) (i : N) (y : gval) (s : gsub) : gres :=
   match ghascycle f i y s with
-  | None => GOOF
-  | Some true => GFail
-  | Some false => GOk (gset s i y)
+  | None => GROOF
+  | Some true => GRFail
+  | Some false => GROk (gset s i y)
   end.
 
 (* unify.go:11-40   func unify(x, y any, s *State) *State
    The last line is reflecttools.ZipReduce(x, y, s, unify): Reflect.zipreduce at accumulator type *State, zero value nil
-   (= GFail); a nil accumulator never reaches the function (ZipReduce returns as soon as it sees one); out of fuel is
+   (= GRFail); a nil accumulator never reaches the function (ZipReduce returns as soon as it sees one); out of fuel is
    carried through the fold. *)
 Fixpoint gunify (f : nat) (x y : gval) (s : gsub) : gres :=
   match f with
-  | O => GOOF
+  | O => GROOF
   | S f' =>
       match gwalk f' x s, gwalk f' y s with
       | Some x', Some y' =>
           match cast_var x', cast_var y' with
-          | Some i, Some j => if N.eqb i j then GOk s else gbind f' i y' s
+          | Some i, Some j => if N.eqb i j then GROk s else gbind f' i y' s
           | Some i, None => gbind f' i y' s
           | None, Some j => gbind f' j x' s
           | None, None =>
-              if is_leaf x' || is_leaf y' then (if gval_eqb x' y' then GOk s else GFail)   (* reflect.DeepEqual *)
-              else fst (zipreduce GFail gres_is_fail
-                          (fun a b acc => match acc with GOk s1 => gunify f' a b s1 | other => other end)
-                          (GOk s) x' y')
+              if is_leaf x' || is_leaf y' then (if gval_eqb x' y' then GROk s else GRFail)   (* reflect.DeepEqual *)
+              else fst (zipreduce GRFail gres_is_fail
+                          (fun a b acc => match acc with GROk s1 => gunify f' a b s1 | other => other end)
+                          (GROk s) x' y')
           end
-      | _, _ => GOOF
+      | _, _ => GROOF
       end
   end.
 
@@ -176,7 +176,50 @@ Fixpoint grewrite (f : nat) (x : gval) (s : gsub) : option gval :=
 (* goal.go: EqualO(x, y) writes unify's result to the stream if it is not nil *)
 Definition gequalo (f : nat) (x y : gval) (s : gsub) : option (list gsub) :=
   match gunify f x y s with
-  | GOOF => None
-  | GFail => Some []
-  | GOk s' => Some [s']
+  | GROOF => None
+  | GRFail => Some []
+  | GROk s' => Some [s']
   end.
+
+(* ---------------------------------------------------------------------------------------------- *)
+(* the term encoding of pointer-shaped values (GCoreSpec.v proves that gunify is micro's unify through it);
+   executable, also used by the correspondence check *)
+Fixpoint tlistn (xs : list term) : term :=
+  match xs with [] => TNil | x :: r => TPair x (tlistn r) end.
+
+(* struct with n fields: tag n >= 0; slice of n elements: tag -(n+1) < 0 (a nil and an empty slice are the same list) *)
+Definition struct_ntag (n : nat) : term := TAtom (AInt (Z.of_nat n)).
+Definition slice_ntag (n : nat) : term := TAtom (AInt (- Z.of_nat n - 1)).
+
+Fixpoint tenc (x : gval) : option term :=
+  let fix tencs (l : list gval) : option (list term) :=
+    match l with
+    | [] => Some []
+    | a :: r => match tenc a, tencs r with Some t, Some ts => Some (t :: ts) | _, _ => None end
+    end in
+  match x with
+  | GNilPtr => Some TNil
+  | GPtr (GScalar k z) =>
+      if (z <? 0)%Z then None
+      else if N.eqb k var_kind then Some (TVar (Z.to_N z))
+      else if N.eqb k 0 then Some (TAtom (AInt z))
+      else if N.eqb k 1 then Some (TAtom (AStr (Z.to_N z)))
+      else None
+  | GStructPtr fs => option_map (fun l => TPair (struct_ntag (length fs)) (tlistn l)) (tencs fs)
+  | GSlice _ es => option_map (fun l => TPair (slice_ntag (length es)) (tlistn l)) (tencs es)
+  | _ => None
+  end.
+
+Fixpoint tencs (l : list gval) : option (list term) :=
+  match l with
+  | [] => Some []
+  | a :: r => match tenc a, tencs r with Some t, Some ts => Some (t :: ts) | _, _ => None end
+  end.
+
+
+Fixpoint senc (s : gsub) : option subst :=
+  match s with
+  | [] => Some []
+  | (k, v) :: r => match tenc v, senc r with Some t, Some ts => Some ((k, t) :: ts) | _, _ => None end
+  end.
+
